@@ -8,6 +8,7 @@ import (
 	"fmt"
 	"math"
 	"math/rand"
+	"strings"
 )
 
 type Gen struct {
@@ -75,6 +76,19 @@ func (g *Gen) freshName1() []byte {
 			return v
 		}
 	}
+	// now and then a name that reads like a boolean literal when written out in full: it is a name all the same
+	if g.pick(40) == 0 {
+		for _, n := range []string{"true", "False", "TRUE", "fAlse", "truE", "FALSE"} {
+			if g.recased == nil {
+				g.recased = map[string]bool{}
+			}
+			if !g.recased["kw:"+strings.ToLower(n)] && !g.recased[strings.ToLower(n)] {
+				g.recased["kw:"+strings.ToLower(n)] = true
+				g.stats["names:boolean-word"]++
+				return []byte(n)
+			}
+		}
+	}
 	g.names++
 	switch g.pick(5) {
 	case 0:
@@ -90,7 +104,7 @@ func (g *Gen) freshName1() []byte {
 	}
 }
 
-var badNames = []string{"", "1abc", "a b", "a-b", "x[", "x[]", "x[1", "x[a]", "x[1]y", "...", "...[0]", "..", "....", "...[x]", "é", "a\n", "[1]", "x[1][", "x[-1]", " x", "x ", "T", "f", "0b1", "0b", "0b2", "名前", "x٣", "v[٣]", "aé", "x[١]", "xⅫ", "ǅ", "x\u0300", "...[٠]", "...[١]", "...[0][1]", "...[]", "...[ 1]"}
+var badNames = []string{"", "1abc", "a b", "a-b", "x[", "x[]", "x[1", "x[a]", "x[1]y", "...", "...[0]", "..", "....", "...[x]", "é", "a\n", "[1]", "x[1][", "x[-1]", " x", "x ", "T", "f", "0b1", "0b", "0b2", "名前", "x٣", "v[٣]", "aé", "x[١]", "xⅫ", "ǅ", "x\u0300", "...[٠]", "...[١]", "...[0][1]", "...[]", "...[ 1]", "v[+3]", "lot[0][+3]", "v[-0]", "v[0x1]", "v[1_0]"}
 
 // widths and ranges
 func intRange(w int) (int64, int64) {
